@@ -28,6 +28,9 @@ Fail-closed.  From the working tree `repo` (pure AST, nothing is imported):
    b(expected): raise SSHException` before the check is recognised (verify_alg_guard), and so is the
    strict-blob test `x = Message(sig); x.get_binary(); x.get_binary(); if x.get_remainder(): raise`
    (verify_canonical_guard);
+ * Transport.connect: the pinned `hostkey` comparison after start_client() -- (key.get_name() !=
+   hostkey.get_name()) <or/and> (key.asbytes() != hostkey.asbytes()), raising SSHException, before any
+   self.auth_* call (pin_combine);
  * Transport._check_banner: what is stored in self.remote_version -- the line read from the peer, or
    `buf` after it was re-bound to a slice of itself (banner_stored).
 """
@@ -620,6 +623,70 @@ def walk_check_banner(fn):
     return stored
 
 
+def walk_connect(fn):
+    """Transport.connect(hostkey=...): the pinned-key comparison after start_client().  Returns how the two
+    tests (key type name differs, key blob differs) are combined: "PinOr" / "PinAnd"; the rejecting branch
+    must raise SSHException and every self.auth_* call must come after it."""
+    where = "transport.connect"
+    params = [a.arg for a in fn.args.args]
+    if "hostkey" not in params:
+        raise Unrecognised(where + ": no hostkey parameter")
+    body = fn.body
+    pin_at = start_at = None
+    op = None
+    for i, st in enumerate(body):
+        calls = {dotted(c.func) for c in ast.walk(st) if isinstance(c, ast.Call)}
+        if "self.start_client" in calls:
+            if start_at is not None or not (isinstance(st, ast.Expr)):
+                raise Unrecognised(where + ": start_client called twice or not as a statement")
+            start_at = i
+        if any(c and c.startswith("self.auth_") for c in calls):
+            if pin_at is None:
+                raise Unrecognised("%s: authentication attempted before the pinned host key is compared (line %d)"
+                                   % (where, st.lineno))
+        if isinstance(st, ast.If) and "self.get_remote_server_key" in calls:
+            if pin_at is not None or start_at is None:
+                raise Unrecognised(where + ": unexpected second host key comparison / comparison before start_client")
+            # if (hostkey is not None) and not gss_kex:
+            t = st.test
+            conds = t.values if isinstance(t, ast.BoolOp) and isinstance(t.op, ast.And) else [t]
+            ok = any(isinstance(c, ast.Compare) and dotted(c.left) == "hostkey" and isinstance(c.ops[0], ast.IsNot)
+                     and isinstance(c.comparators[0], ast.Constant) and c.comparators[0].value is None for c in conds)
+            ok = ok and all(isinstance(c, ast.Compare) or (isinstance(c, ast.UnaryOp) and isinstance(c.op, ast.Not)
+                            and dotted(c.operand) == "gss_kex") for c in conds) and not st.orelse
+            if not ok or len(st.body) < 2:
+                raise Unrecognised(where + ": unrecognised guard of the pinned host key comparison")
+            a0 = st.body[0]
+            if not (isinstance(a0, ast.Assign) and dotted(a0.targets[0]) == "key"
+                    and is_call(a0.value, "self.get_remote_server_key") and not a0.value.args):
+                raise Unrecognised(where + ": key is not self.get_remote_server_key()")
+            cmp_if = st.body[1]
+            if not isinstance(cmp_if, ast.If) or cmp_if.orelse:
+                raise Unrecognised(where + ": no comparison after fetching the server key")
+            ct = cmp_if.test
+            if not (isinstance(ct, ast.BoolOp) and len(ct.values) == 2):
+                raise Unrecognised(where + ": comparison is not a two-way and/or")
+
+            def side(c, meth):
+                return isinstance(c, ast.Compare) and len(c.ops) == 1 and isinstance(c.ops[0], ast.NotEq) \
+                    and {dotted(getattr(x, "func", x)) for x in (c.left, c.comparators[0])} == {"key." + meth, "hostkey." + meth} \
+                    and all(isinstance(x, ast.Call) and not x.args for x in (c.left, c.comparators[0]))
+            if not (side(ct.values[0], "get_name") and side(ct.values[1], "asbytes")
+                    or side(ct.values[0], "asbytes") and side(ct.values[1], "get_name")):
+                raise Unrecognised(where + ": comparison is not (name != name) <op> (blob != blob)")
+            op = "PinOr" if isinstance(ct.op, ast.Or) else "PinAnd"
+            last = cmp_if.body[-1]
+            if not (isinstance(last, ast.Raise) and is_call(last.exc, "SSHException")):
+                raise Unrecognised(where + ": a differing host key does not raise SSHException")
+            for s2 in cmp_if.body[:-1] + st.body[2:]:
+                if not (isinstance(s2, ast.Expr) and is_call(s2.value, "self._log")):
+                    raise Unrecognised("%s: unrecognised statement in the host key comparison (line %d)" % (where, s2.lineno))
+            pin_at = i
+    if pin_at is None:
+        raise Unrecognised(where + ": the pinned host key is never compared")
+    return op
+
+
 def coqbool(b):
     return "true" if b else "false"
 
@@ -644,6 +711,7 @@ def generate(repo):
     w("Inductive setkh_stmt := AssignK (a : arg) | AssignH (a : arg) | AssignSid (a : arg) | LatchSid (a : arg).")
     w("Inductive vsrc := VH | VK | VSid.")
     w("Inductive bannersrc := BLine | BStripped.")
+    w("Inductive pinop := PinOr | PinAnd.")
     w("")
     check_subclasses(repo)
     lay = {}
@@ -688,7 +756,7 @@ def generate(repo):
     w("")
     rel = "transport.py"
     tms = methods(class_def(parse_module(repo, rel), "Transport", rel))
-    for nm in ("_set_K_H", "_verify_key", "_check_banner"):
+    for nm in ("_set_K_H", "_verify_key", "_check_banner", "connect"):
         if nm not in tms:
             raise Unrecognised("Transport.%s not found" % nm)
     prog = walk_set_K_H(tms["_set_K_H"])
@@ -707,6 +775,8 @@ def generate(repo):
     w("Definition verify_canonical_guard : bool := %s." % coqbool(canon_guard))
     w("(* Transport._check_banner: what is kept as remote_version (the V_S / V_C this side hashes) *)")
     w("Definition banner_stored : bannersrc := %s." % walk_check_banner(tms["_check_banner"]))
+    w("(* Transport.connect(hostkey=...): reject when (type name differs) <op> (blob differs); raise before any auth *)")
+    w("Definition pin_combine : pinop := %s." % walk_connect(tms["connect"]))
     w("")
     return {"C06_gen.v": "\n".join(out) + "\n"}
 
